@@ -61,6 +61,8 @@ static void threads_gen(Rng &r, Plan &p, Tier tier, uint64_t index)
 		}
 		s.set("thread", thr);
 		s.set("key", key);
+		if (r.chance(1, 3))
+			s.set("bykid", 1); // key resolved by kid in the shared keyring from inside the thread's callback
 		s.uid = uid++;
 		p.steps.push_back(s);
 	}
@@ -71,6 +73,7 @@ struct SharedKeys {
 	KeyRef truth[6];
 	LoadedKey priv[6], pub[6];
 	int alg[6];
+	jwk_set_t *ring_priv = nullptr, *ring_pub = nullptr; // all keys in one JWKS each, kid "k0".."k5"
 	void init(Ctx &ctx, uint64_t root)
 	{
 		Rng r(mix64(root, 0x7431));
@@ -87,13 +90,28 @@ struct SharedKeys {
 		alg[4] = JWT_ALG_RS256;
 		truth[5] = key_gen_ec("P-521");
 		alg[5] = JWT_ALG_ES512;
+		json_t *dpriv = json_object(), *dpub = json_object(), *apriv = json_array(), *apub = json_array();
 		for (int i = 0; i < 6; i++) {
 			JwkOpts o;
 			o.priv = true;
 			lib_load_key(ctx, jwk_export(*truth[i], o), priv[i]);
+			o.has_kid = true;
+			o.kid = strf("k%d", i);
+			json_array_append_new(apriv, jwk_export_json(*truth[i], o));
+			o.has_kid = false;
 			o.priv = false;
 			lib_load_key(ctx, jwk_export(*truth[i], o), pub[i]);
+			o.has_kid = true;
+			json_array_append_new(apub, jwk_export_json(*truth[i], o));
 		}
+		json_object_set_new(dpriv, "keys", apriv);
+		json_object_set_new(dpub, "keys", apub);
+		std::string tp = json_text(dpriv), tu = json_text(dpub);
+		json_decref(dpriv);
+		json_decref(dpub);
+		Armed a;
+		ring_priv = jwks_create(tp.c_str());
+		ring_pub = jwks_create(tu.c_str());
 	}
 	void fini()
 	{
@@ -101,6 +119,9 @@ struct SharedKeys {
 			lib_free_key(priv[i]);
 			lib_free_key(pub[i]);
 		}
+		Armed a;
+		jwks_free(ring_priv);
+		jwks_free(ring_pub);
 	}
 };
 
@@ -151,6 +172,26 @@ static int thr_cb(jwt_t *jwt, jwt_config_t *config)
 	return 0;
 }
 
+// The thread resolves its key by kid in the shared keyring from inside the callback (read-only use
+// of the keyring by several threads at once).
+struct KidCtx {
+	jwk_set_t *ring;
+	const char *kid;
+	int alg;
+};
+
+static int kid_cb(jwt_t *jwt, jwt_config_t *config)
+{
+	(void)jwt;
+	KidCtx *k = (KidCtx *)config->ctx;
+	const jwk_item_t *it = jwks_find_bykid(k->ring, k->kid);
+	if (!it)
+		return 1;
+	config->key = it;
+	config->alg = (jwt_alg_t)k->alg;
+	return 0;
+}
+
 static void do_op(RunCtx &rc, size_t idx)
 {
 	const Step &s = rc.plan->steps[idx];
@@ -165,14 +206,19 @@ static void do_op(RunCtx &rc, size_t idx)
 			o.done = 1;
 			return;
 		}
-		jwt_builder_setkey(b, (jwt_alg_t)K.alg[key], K.priv[key].item);
+		std::string kid = strf("k%d", key);
+		KidCtx kc{K.ring_priv, kid.c_str(), K.alg[key]};
+		if (s.I("bykid"))
+			jwt_builder_setcb(b, kid_cb, &kc);
+		else
+			jwt_builder_setkey(b, (jwt_alg_t)K.alg[key], K.priv[key].item);
 		jwt_value_t jv;
 		static const char *vals[] = {"alpha", "beta", "a-longer-claim-value-0123456789", "", "\xc3\xa9", "x"};
 		jv_set_str(&jv, "sub", vals[(uint64_t)s.I("claimsel") % 6], 1);
 		jwt_builder_claim_set(b, &jv);
 		jv_set_int(&jv, "n", (long)idx, 1);
 		jwt_builder_claim_set(b, &jv);
-		if (s.I("cb"))
+		if (s.I("cb") && !s.I("bykid"))
 			jwt_builder_setcb(b, thr_cb, NULL);
 		char *t = jwt_builder_generate(b);
 		o.ret = t ? 0 : 1;
@@ -209,10 +255,15 @@ static void do_op(RunCtx &rc, size_t idx)
 			o.done = 1;
 			return;
 		}
-		jwt_checker_setkey(c, (jwt_alg_t)K.alg[vkey], K.pub[vkey].item);
+		std::string kid = strf("k%d", vkey);
+		KidCtx kc{K.ring_pub, kid.c_str(), K.alg[vkey]};
+		if (s.I("bykid"))
+			jwt_checker_setcb(c, kid_cb, &kc);
+		else
+			jwt_checker_setkey(c, (jwt_alg_t)K.alg[vkey], K.pub[vkey].item);
 		if (s.I("claims"))
 			jwt_checker_claim_set(c, JWT_CLAIM_SUB, "alpha");
-		if (s.I("cb"))
+		if (s.I("cb") && !s.I("bykid"))
 			jwt_checker_setcb(c, thr_cb, NULL);
 		o.ret = jwt_checker_verify(c, tok.empty() ? "x" : tok.c_str());
 		jwt_checker_free(c);
